@@ -45,6 +45,106 @@ def classify(dump, src):
     return sorted(set(kinds)) or ["checker-rejects"]
 
 
+# ---- tree surgery primitives: model (coq/model/TokenHeap.v, extracted) against token.c on the same operation scripts
+
+def gen_script(rng):
+    """builds chains of tokens with plausible spans the way the parser does, then applies surgery; ids are guesses
+    (0 and ids one past the last are produced on purpose): the model says where a script first dereferences NULL"""
+    src = bytes(rng.choice(b"ab|* _\n") for _ in range(rng.randint(0, 60)))
+    ops, n = [], 0
+    chains = []
+    for _ in range(rng.randint(1, 4)):
+        k, pos, ids = rng.randint(1, 8), rng.randint(0, 5), []
+        for _ in range(k):
+            ln = rng.choice([0, 1, 1, 2, 3, 7])
+            ops.append("N %d %d %d" % (rng.randint(1, 300), pos, ln)); n += 1; ids.append(n)
+            pos += ln + rng.choice([0, 0, 0, 1])
+        for i in ids[1:]:
+            ops.append("A %d %d" % (ids[0], i))
+        chains.append(ids)
+    def tid():
+        r = rng.random()
+        if r < 0.03: return 0
+        if r < 0.06: return n + 1
+        if r < 0.5 and chains: return rng.choice(rng.choice(chains))
+        return rng.randint(1, max(1, n))
+    for _ in range(rng.randint(1, 25)):
+        k = rng.random()
+        if k < 0.22:
+            c = rng.choice(chains); i = rng.randrange(len(c)); j = rng.randrange(i, len(c))
+            a, b = (c[i], c[j]) if rng.random() < 0.9 else (tid(), tid())
+            if rng.random() < 0.4: ops.append("M %d %d" % (a, b))
+            ops.append("PG %d %d %d" % (a, b, rng.randint(50, 120))); n += 1
+        elif k < 0.36:
+            t = tid(); ops.append("SP %d %d %d %d" % (t, rng.randint(0, 30), rng.randint(0, 6), rng.randint(1, 300))); n += 1
+        elif k < 0.42:
+            ops.append("SC %d %d" % (tid(), rng.choice(b"ab|* _")))
+        elif k < 0.50:
+            ops.append("P %d %d" % (rng.choice(chains)[0] if rng.random() < 0.7 else tid(), rng.randint(50, 120))); n += 1
+        elif k < 0.58:
+            ops.append("N %d %d %d" % (rng.randint(1, 300), rng.randint(0, 40), rng.randint(0, 5))); n += 1
+            ops.append("H %d %d" % (tid(), n))
+        elif k < 0.64: ops.append("PL %d" % tid())
+        elif k < 0.72:
+            c = rng.choice(chains); i = rng.randrange(len(c)); j = rng.randrange(i, len(c))
+            ops.append("PR %d %d" % ((c[i], c[j]) if rng.random() < 0.85 else (tid(), tid())))
+        elif k < 0.77: ops.append("RF %d" % tid())
+        elif k < 0.82: ops.append("RL %d" % tid())
+        elif k < 0.86: ops.append("RT %d" % tid())
+        elif k < 0.90: ops.append("FT %d" % tid())
+        elif k < 0.94: ops.append("A %d %d" % (tid(), tid()))
+        elif k < 0.97: ops.append("C %d" % tid()); n += 1
+        else: ops.append("M %d %d" % (tid(), tid()))
+    return (src.hex() or "-") + " ; " + " ; ".join(ops)
+
+
+def surgery_compare(drv, har, scripts):
+    """-> [(script cut before the first undefined operation, model heap, implementation heap)]"""
+    model = common.run_lines_par(drv, scripts, args=["surgery"], timeout=600)
+    cut, exp = [], []
+    for sc, m in zip(scripts, model):
+        f = m.split(" ", 2)
+        if m.startswith("CRASH") or len(f) < 3:
+            cut.append(sc.split(" ; ")[0]); exp.append("MODEL " + m[:100]); continue
+        parts = sc.split(" ; ")
+        cut.append(" ; ".join(parts[:1 + int(f[0])])); exp.append(f[2])
+    impl = common.run_lines_par(har, cut, timeout=600)
+    return list(zip(cut, exp, impl))
+
+
+def surgery_part(rep, tier, rng, drv, bad):
+    har = common.build_harness("asan", "surgery")
+    corpus = [l.strip() for l in open(os.path.join(common.VERIF, "corpus", "C15", "surgery.txt")) if l.strip() and not l.startswith("#")] \
+        if os.path.exists(os.path.join(common.VERIF, "corpus", "C15", "surgery.txt")) else []
+    scripts = corpus + [gen_script(rng) for _ in range(1500 if tier == "quick" else 60000)]
+    res = surgery_compare(drv, har, scripts)
+    hist = collections.Counter()
+    nontriv = set()
+    for sc, (cut, exp, impl) in zip(scripts, res):
+        ops = cut.split(" ; ")[1:]
+        for o in ops: hist[o.split()[0]] += 1
+        if any(o.split()[0] in ("PG", "SP", "SC", "PR", "PL") for o in ops[1:]): nontriv.add(cut)
+        if exp != impl:
+            bad.append((b"", cut, "surgery-model-vs-impl", "token.c and coq/model/TokenHeap.v differ on an operation script: model %s / implementation %s" % (exp[:200], impl[:200])))
+    rep.cov["surgery_scripts"] = len(scripts)
+    rep.cov["surgery_scripts_nontrivial"] = len(nontriv)
+    rep.cov["surgery_ops_executed"] = dict(hist)
+    rep.cov["surgery_scripts_cut_at_undefined_op"] = sum(1 for sc, (cut, _, _) in zip(scripts, res) if cut != sc)
+    return len(scripts)
+
+
+def shrink_script(drv, har, cut):
+    src, *ops = cut.split(" ; ")
+    def test(sub):
+        c, e, i = surgery_compare(drv, har, [src + " ; " + " ; ".join(sub)])[0]
+        return e != i
+    try:
+        ops = common.ddmin(ops, test)
+    except Exception:
+        pass
+    return src + " ; " + " ; ".join(ops)
+
+
 def run(rep, tier, seed):
     rep.cov["trusted_base"] = TRUSTED
     tr_err = None
@@ -81,7 +181,8 @@ def run(rep, tier, seed):
         if v != "1":
             for k in classify(dump, d):
                 bad.append((d, c, k, "token tree %s violates the checker clause '%s'" % (stage, k)))
-    rep.cov["evaluations"] = len(docs)
+    nsurg = surgery_part(rep, tier, rng, drv, bad)
+    rep.cov["evaluations"] = len(docs) + nsurg
     rep.cov["trees_checked"] = len(dumps)
     rep.cov["tokens_checked"] = ntok
     rep.cov["distinct_nontrivial"] = len(set(d for d in docs if len(d) > 20))
@@ -94,6 +195,13 @@ def run(rep, tier, seed):
     for d, c, kind, what in bad:
         if kind in seen: continue
         seen.add(kind)
+        if kind == "surgery-model-vs-impl":
+            small = shrink_script(drv, common.build_harness("asan", "surgery"), c)
+            cc, e, i = surgery_compare(drv, common.build_harness("asan", "surgery"), [small])[0]
+            # a difference between model and code is a broken tie; it becomes a failing input when the code's heap is not coherent
+            rep.violation(kind, what, dict(script=small, model=e, impl=i, no_failing_input=True,
+                                           broken="correspondence coq/model/TokenHeap.v <-> src/token.c (theorems of Properties_C15.v are about the model)"))
+            continue
         rep.violation(kind, what, dict(case=c, source=d.decode("latin-1"), no_failing_input=False))
     if not res["ok"] and not bad:
         rep.violation("proof-broken", "Properties_C15 no longer checks: %s" % res["failed"],
@@ -104,6 +212,14 @@ def run(rep, tier, seed):
 def replay(rep, r):
     har = common.build_harness("asan", "treedump")
     drv = common.extract_driver()
+    if "script" in r:
+        rep.cov.update(evaluations=1, distinct_nontrivial=1, obligations=1, discharged=1, checker_cmd="replay", rule="replay")
+        rep.cov["samples"] = [r["script"]]
+        c, e, i = surgery_compare(drv, common.build_harness("asan", "surgery"), [r["script"]])[0]
+        print("script:", c); print("model :", e); print("impl  :", i)
+        if e != i:
+            rep.violation("surgery-model-vs-impl", "model and token.c differ", dict(r, no_failing_input=True))
+        return
     o = common.run_lines(har, [r["case"]])[0]
     print(o[:2000])
     rep.cov.update(evaluations=1, distinct_nontrivial=1, obligations=1, discharged=1, checker_cmd="replay", rule="replay")
